@@ -36,6 +36,7 @@ Contract(api) ==
     [] api \in {"ecvrf.Verify", "ecvrf.Verify_v10"} -> <<<<Ex(32), Ex(80), Any>>, "false">>
     [] api = "ecvrf.VerifyGoodKey" -> <<<<Ex(80), Any>>, "false">>
     [] api = "ecvrf.ProofToHash" -> <<<<Ex(80)>>, "error">>
+    [] api = "ecvrf.ProveWithAddedRandomness" -> <<<<Ex(64), Any>>, "error">>
     [] api = "sr25519.Verify" -> <<<<Ex(32), Ex(64), Any>>, "false">>
     [] api = "x25519.X25519" -> <<<<Ex(32), Ex(32)>>, "error">>
     [] api = "x25519.EdPublicKeyToX25519" -> <<<<Ex(32)>>, "false">>
@@ -57,9 +58,11 @@ DocumentedPanic(api, lens, msgclass) ==
   \/ api \in {"ed25519.Verify", "ed25519.VerifyWithOptions.ph"} /\ msgclass = "badpklen" /\ lens[1] # 32
   \/ api = "ed25519.VerifyWithOptions.ph" /\ msgclass = "badhashlen" /\ lens[2] # 64
 
-Allowed(api, lens, outcome, after, msgclass) ==
+\* overrun: the callee wrote past the end of a byte slice it was given (into the caller's spare capacity)
+Allowed(api, lens, outcome, after, msgclass, overrun) ==
   /\ Contract(api)[2] # "unknown"
   /\ after # "stale"
+  /\ ~overrun
   /\ IF outcome = "panic" THEN DocumentedPanic(api, lens, msgclass)
      ELSE IF LensOK(api, lens) THEN outcome \in Success \cup Failure
      ELSE outcome = Contract(api)[2]                       \* malformed length: the documented failure signal
